@@ -450,7 +450,12 @@ def _str_method(name):
             items = list(I.iterate(args[0], None))
             if all(isinstance(x, str) for x in items):
                 return s.join(items)
-            return FStr(items)
+            out = []
+            for i, x in enumerate(items):
+                if i:
+                    out.append(s)
+                out.append(x)
+            return FStr(out)
         if name == "format":
             if all(isinstance(x, (int, str)) and not isinstance(x, bool) for x in args) and not kw:
                 return s.format(*args)
